@@ -15,8 +15,8 @@
        property: after all groups are named, different groups have different names (GroupsDistinct).
 
    Names are TLA+ strings; Pool is a sequence of the names that may occur in an operand (its order stands for the
-   lexicographic order the code sorts by).  A behaviour picks a set of states, a partition of it and an order in which
-   the groups are named, and then names one group per step. *)
+   lexicographic order the code sorts by).  A behaviour picks a set of states and then, step by step, a next group among the states that are left
+   (so every partition is named in every order). *)
 EXTENDS Naturals, Sequences, FiniteSets, TLC
 CONSTANTS PoolId,      \* which pool of operand names (a cfg file cannot hold a sequence)
           PairScheme,  \* "join" | "pair"
@@ -30,7 +30,7 @@ Idx(n) == CHOOSE i \in DOMAIN Pool : Pool[i] = n
 
 (* ---- (1) *)
 PairName(p, q) == IF PairScheme = "join" THEN p \o Sep \o q ELSE <<p, q>>
-PairInjective == \A p, q, p2, q2 \in Names : PairName(p, q) = PairName(p2, q2) => (p = p2 /\ q = q2)
+PairInjectiveC == \A p, q, p2, q2 \in Names : PairName(p, q) = PairName(p2, q2) => (p = p2 /\ q = q2)
 
 (* ---- (2) *)
 RECURSIVE JoinFrom(_,_)
@@ -50,20 +50,19 @@ Distinct(G, taken) ==
   ELSE IF GroupScheme = "count" THEN m \o "#" \o Str(Cardinality(taken))
   ELSE Loop(m, 1, taken)
 
-Partitions(S) == { P \in SUBSET (SUBSET S \ {{}}) : (UNION P = S) /\ \A x, y \in P : x # y => x \cap y = {} }
-
-VARIABLES todo,     \* groups still to be named
+VARIABLES rest,     \* states not yet in a named group
           taken,    \* names handed out
           name      \* group -> name
-vars == <<todo, taken, name>>
-Init == /\ \E S \in SUBSET Names \ {{}} : todo \in Partitions(S)
+vars == <<rest, taken, name>>
+Init == /\ rest \in SUBSET Names \ {{}}
         /\ taken = {}
         /\ name = <<>>
 NameOne(G) == LET n == Distinct(G, taken) IN
-  /\ todo' = todo \ {G}
+  /\ rest' = rest \ G
   /\ taken' = taken \cup {n}
   /\ name' = [g \in DOMAIN name \cup {G} |-> IF g = G THEN n ELSE name[g]]
-Next == \E G \in todo : NameOne(G)
+Next == \E G \in SUBSET rest \ {{}} : NameOne(G)
 Spec == Init /\ [][Next]_vars
+PairInjective == rest \subseteq Names /\ PairInjectiveC       \* state-level, so that TLC reports it like the others
 GroupsDistinct == \A g, h \in DOMAIN name : g # h => name[g] # name[h]
 =============================================================================
